@@ -29,8 +29,9 @@
 (*          context once per item evaluation); env.cancelAt = k > 0 makes   *)
 (*          the k-th poll observe a done context;                           *)
 (* env.exm is TRUE while only existence is asked of the chain being         *)
-(* evaluated (the executor's found == nil); it matters to one named         *)
-(* deviation only.                                                          *)
+(* evaluated (the executor's found == nil): the evaluation then stops at    *)
+(* the first item, which matters to the number of polls (C20) and to one    *)
+(* named deviation.                                                         *)
 (*   ci     index into env.choice, the prophecy of the member order used at *)
 (*          each expansion of an object with two or more members.           *)
 (* Results are [items, err, st]: the items produced, in order, before the   *)
@@ -76,6 +77,10 @@ TypeName(v) ==
     [] OTHER -> "number"   \* anyid
 
 -----------------------------------------------------------------------------
+(* In exists mode (only existence is asked: lax Exists, lax exists()) the   *)
+(* evaluation of the chain stops at its first item.                         *)
+Found(env, r) == env.exm /\ r.items # <<>>
+
 RECURSIVE Exec(_, _, _, _, _, _), Cont(_, _, _, _, _),
           EachSame(_, _, _, _, _, _, _), EachNext(_, _, _, _, _, _, _),
           Subs(_, _, _, _, _, _, _, _), GetIndex(_, _, _, _),
@@ -94,6 +99,7 @@ EachSame(ch, i, xs, j, env, st, acc) ==
   IF j > Len(xs) THEN R(acc, "none", st)
   ELSE LET r == Exec(ch, i, xs[j], env, st, FALSE)
        IN IF Failed(r) THEN R(acc \o r.items, r.err, r.st)
+          ELSE IF Found(env, r) THEN R(acc \o r.items, "none", r.st)
           ELSE EachSame(ch, i, xs, j + 1, env, r.st, acc \o r.items)
 
 (* Push each of xs[j..] through the rest of the chain after ch[i].          *)
@@ -101,6 +107,7 @@ EachNext(ch, i, xs, j, env, st, acc) ==
   IF j > Len(xs) THEN R(acc, "none", st)
   ELSE LET r == Cont(ch, i, xs[j], env, st)
        IN IF Failed(r) THEN R(acc \o r.items, r.err, r.st)
+          ELSE IF Found(env, r) THEN R(acc \o r.items, "none", r.st)
           ELSE EachNext(ch, i, xs, j + 1, env, r.st, acc \o r.items)
 
 Structural(env, st) ==      \* a structural mismatch: skipped when lenient
@@ -258,6 +265,7 @@ Subs(ch, i, subs, j, v, arr, env, stacc) ==
                                                  THEN SelectSeq(sel, LAMBDA x : x.t # "null") ELSE sel,
                                           1, env, t.st, <<>>)
                        IN IF Failed(r) THEN R(acc \o r.items, r.err, r.st)
+                          ELSE IF Found(env, r) THEN R(acc \o r.items, "none", r.st)
                           ELSE Subs(ch, i, subs, j + 1, v, arr, env,
                                     [st |-> r.st, acc |-> acc \o r.items])
 
@@ -270,11 +278,13 @@ AnyItems(ch, i, xs, j, level, first, last, env, st, acc) ==
            sel == level >= first \/ (first = INF /\ last = INF /\ IsScalar(v))
            r0  == IF sel THEN Cont(ch, i, v, env, st) ELSE R(<<>>, "none", st)
        IN IF Failed(r0) THEN R(acc \o r0.items, r0.err, r0.st)
+          ELSE IF Found(env, r0) THEN R(acc \o r0.items, "none", r0.st)
           ELSE LET r1 == IF level < last /\ IsContainer(v)
                          THEN LET c == Children(v, env, r0.st)
                               IN AnyItems(ch, i, c.xs, 1, level + 1, first, last, env, c.st, <<>>)
                          ELSE R(<<>>, "none", r0.st)
                IN IF Failed(r1) THEN R(acc \o r0.items \o r1.items, r1.err, r1.st)
+                  ELSE IF Found(env, r1) THEN R(acc \o r0.items \o r1.items, "none", r1.st)
                   ELSE AnyItems(ch, i, xs, j + 1, level, first, last, env, r1.st,
                                 acc \o r0.items \o r1.items)
 
@@ -292,6 +302,7 @@ UnaryEach(ch, i, op, xs, j, env, st, acc) ==
        IN IF ~u.ok THEN R(acc, ErrOf(u.err, env), st)
           ELSE LET r == Cont(ch, i, u.v, env, st)
                IN IF Failed(r) THEN R(acc \o r.items, r.err, r.st)
+                  ELSE IF Found(env, r) THEN R(acc \o r.items, "none", r.st)
                   ELSE UnaryEach(ch, i, op, xs, j + 1, env, r.st, acc \o r.items)
 
 -----------------------------------------------------------------------------
@@ -308,6 +319,7 @@ KeyValues(ch, i, o, j, env, st, acc) ==
   IF j > Len(o) THEN R(acc, "none", st)
   ELSE LET r == Cont(ch, i, KVTriple(o[j]), env, st)
        IN IF Failed(r) THEN R(acc \o r.items, r.err, r.st)
+          ELSE IF Found(env, r) THEN R(acc \o r.items, "none", r.st)
           ELSE KeyValues(ch, i, o, j + 1, env, r.st, acc \o r.items)
 
 -----------------------------------------------------------------------------
@@ -374,7 +386,7 @@ Exec(ch, i, v, env, st0, unwrap) ==
  [] n.k = "any" ->
       LET envL == [env EXCEPT !.lenient = TRUE]
           r0   == IF n.first = 0 THEN Cont(ch, i, v, envL, st) ELSE R(<<>>, "none", st)
-      IN IF Failed(r0) \/ ~IsContainer(v) THEN r0
+      IN IF Failed(r0) \/ ~IsContainer(v) \/ Found(env, r0) THEN r0
          ELSE LET c  == Children(v, env, r0.st)
                   r1 == AnyItems(ch, i, c.xs, 1, 1, Lvl(n.first), Lvl(n.last), envL, c.st, <<>>)
               IN R(r0.items \o r1.items, r1.err, r1.st)
@@ -466,7 +478,10 @@ FirstOf(c, r) ==
      ELSE [has |-> TRUE, item |-> q.items[1], err |-> "none"]
 
 (* Exists: [val, err] with err "none" | "NULL" | a class.  Lax mode answers *)
-(* at the first event; strict mode needs the complete evaluation.           *)
+(* at the first event; strict mode needs the complete evaluation.  r may be *)
+(* the complete evaluation (its first event is the same) or, when the       *)
+(* number of polls matters, EvalExists(c, par).                             *)
+EvalExists(c, par) == Eval(c, [par EXCEPT !.exm = c.path.lax])
 ExistsOf(c, r) ==
   IF c.path.lax /\ r.items # <<>> THEN [val |-> TRUE, err |-> "none"]
   ELSE IF r.err = "none" THEN [val |-> r.items # <<>>, err |-> "none"]
